@@ -351,6 +351,15 @@ class SArray(SArrayBase):
         raise ValueError("The truth value of an array with more than one element is ambiguous")
 
     # ---- conversions / reductions
+    def tobytes(self, order="C"):
+        """raw bytes of the array as a hashable key: for numeric items a function of the values; an array that holds
+        str objects is an OBJECT array - its bytes are the objects' addresses, i.e. arbitrary (one fresh symbol)"""
+        import z3
+        from . import core
+        if any(isinstance(x, str) for x in self.items):
+            return core.SKey((core.SNum(z3.Int(core.Ctx.cur.fresh_name("object_addresses"))),))
+        return core.SKey(tuple(_num(x) for x in self.items))
+
     def astype(self, t, copy=True):
         t = _dt(t)
         k = self.dtype.kind
@@ -989,6 +998,10 @@ def where(c, a=None, b=None):
     ai = a.items if isinstance(a, SArray) else [a] * n
     bi = b.items if isinstance(b, SArray) else [b] * n
     return SArray([_ite_any(m, x, y) for m, x, y in zip(c.items, ai, bi)])
+
+
+def ascontiguousarray(a, dtype=None):
+    return asarray(a) if dtype is None else asarray(a, dtype=dtype)
 
 
 def apply_along_axis(f, axis, arr):
